@@ -251,7 +251,9 @@ func (ls *LState) FindTable(obj *LTable, n string, size int) LValue {
 		nextobj := ls.RawGet(curobj, LString(name))
 		if nextobj == LNil {
 			tb := ls.CreateTable(0, size)
-			ls.RawSet(curobj, LString(name), tb)
+			// looked up raw, stored with an ordinary assignment (luaL_findtable: lua_rawget,
+			// lua_settable), so a __newindex on the table of globals sees the new module
+			ls.SetTable(curobj, LString(name), tb)
 			curobj = tb
 		} else if nextobj.Type() != LTTable {
 			return LNil
